@@ -173,3 +173,26 @@ Proof.
   intros Hx. unfold ilog2_m. destruct (Z.to_nat (bits t)); cbn [ilog2_loop];
     destruct (Z.gtb_spec x 1); try lia; reflexivity.
 Qed.
+
+(** outside the documented domain: what the code does there, exactly *)
+(* min / -1: the 8- and 16-bit types divide in int and convert back (min again, remainder 0); int and long overflow *)
+Lemma idiv_min_small t : WT t -> sgn t = true -> bits t < 32 -> idiv_m t (imin t) (-1) = Ok (imin t, 0).
+Proof. intros HT Hs Hb. types t HT; try discriminate; try (cbn in Hb; lia); reflexivity. Qed.
+Lemma idiv_min_ub t : WT t -> sgn t = true -> 32 <= bits t -> idiv_m t (imin t) (-1) = UB SignedOverflow.
+Proof. intros HT Hs Hb. types t HT; try discriminate; try (cbn in Hb; lia); reflexivity. Qed.
+Lemma idiv_zero t x : idiv_m t x 0 = UB DivByZero.
+Proof. reflexivity. Qed.
+
+Lemma outside_domain t : WT t ->
+  (sgn t = true -> bits t < 32 -> abs_m t (imin t) = Ok (imin t) /\ idiv_m t (imin t) (-1) = Ok (imin t, 0))
+  /\ (sgn t = true -> 32 <= bits t -> abs_m t (imin t) = UB SignedOverflow /\ idiv_m t (imin t) (-1) = UB SignedOverflow)
+  /\ (forall x, idiv_m t x 0 = UB DivByZero)
+  /\ (forall b e, e <= 0 -> ipow_m t b e = Ok 1)
+  /\ (forall x, x <= 1 -> ilog2_m t x = Ok 0).
+Proof.
+  intros HT.
+  split; [intros Hs Hb; split; [now apply abs_min_small | now apply idiv_min_small]|].
+  split; [intros Hs Hb; split; [now apply abs_min_ub | now apply idiv_min_ub]|].
+  split; [intros x; apply idiv_zero|].
+  split; [intros b e He; now apply ipow_negative | intros x Hx; now apply ilog2_nonpositive].
+Qed.
